@@ -1688,6 +1688,13 @@ func (f *FA) edgeFacts(p, x *ssa.BasicBlock) []Fact {
 				break
 			}
 			if _, _, isInt := f.typeRange(ph.Type()); !isInt {
+				// a merged byte slice has the length of the value that came in
+				if isByteSlice(ph.Type()) {
+					a, b := f.SliceLen(ph), f.SliceLen(ph.Edges[i])
+					if a.key() != b.key() {
+						out = append(out, Fact{L: a.add(b, -1)}, Fact{L: b.add(a, -1)})
+					}
+				}
 				continue
 			}
 			a, b := f.LFOf(ph), f.LFOf(ph.Edges[i])
